@@ -38,6 +38,8 @@ type Consistent struct {
 	// consistent hashCircle
 	hashCircle      map[int64]getty.Session
 	sortedHashNodes []int64
+	// members are the sessions the ring was built from
+	members map[getty.Session]struct{}
 }
 
 func (c *Consistent) put(key int64, session getty.Session) {
@@ -57,106 +59,84 @@ func (c *Consistent) hash(key string) int64 {
 	return res
 }
 
-// pick get a  node
+// pick get a node: the ring is brought in line with the open registered sessions first
 func (c *Consistent) pick(sessions *sync.Map, key string) getty.Session {
+	c.refreshHashCircle(sessions)
+
+	c.RLock()
+	defer c.RUnlock()
+	if len(c.sortedHashNodes) == 0 {
+		return nil
+	}
 	hashKey := c.hash(key)
 	index := sort.Search(len(c.sortedHashNodes), func(i int) bool {
 		return c.sortedHashNodes[i] >= hashKey
 	})
-
 	if index == len(c.sortedHashNodes) {
-		return RandomLoadBalance(sessions, key)
+		// wrap around the ring
+		index = 0
 	}
-
-	c.RLock()
-	session, ok := c.hashCircle[c.sortedHashNodes[index]]
-	if !ok {
-		c.RUnlock()
-		return RandomLoadBalance(sessions, key)
-	}
-	c.RUnlock()
-
-	if session.IsClosed() {
-		go c.refreshHashCircle(sessions)
-		return c.firstKey()
-	}
-
-	return session
+	return c.hashCircle[c.sortedHashNodes[index]]
 }
 
-// refreshHashCircle refresh hashCircle
+// refreshHashCircle rebuilds the ring when its members differ from the open sessions of the table
 func (c *Consistent) refreshHashCircle(sessions *sync.Map) {
-	var sortedHashNodes []int64
-	hashCircle := make(map[int64]getty.Session)
-	var session getty.Session
+	live := make(map[getty.Session]struct{})
 	sessions.Range(func(key, value interface{}) bool {
-		session = key.(getty.Session)
-		for i := 0; i < defaultVirtualNodeNumber; i++ {
-			if !session.IsClosed() {
-				position := c.hash(fmt.Sprintf("%s%d", session.RemoteAddr(), i))
-				hashCircle[position] = session
-				sortedHashNodes = append(sortedHashNodes, position)
-			} else {
-				sessions.Delete(key)
-			}
+		session := key.(getty.Session)
+		if session.IsClosed() {
+			sessions.Delete(key)
+		} else {
+			live[session] = struct{}{}
 		}
 		return true
 	})
 
-	// virtual node sort
+	c.Lock()
+	defer c.Unlock()
+	same := len(live) == len(c.members)
+	if same {
+		for session := range live {
+			if _, ok := c.members[session]; !ok {
+				same = false
+				break
+			}
+		}
+	}
+	if same {
+		return
+	}
+	var sortedHashNodes []int64
+	hashCircle := make(map[int64]getty.Session)
+	for session := range live {
+		for i := 0; i < defaultVirtualNodeNumber; i++ {
+			position := c.hash(fmt.Sprintf("%s%d", session.RemoteAddr(), i))
+			if _, dup := hashCircle[position]; !dup {
+				sortedHashNodes = append(sortedHashNodes, position)
+			}
+			hashCircle[position] = session
+		}
+	}
 	sort.Slice(sortedHashNodes, func(i, j int) bool {
 		return sortedHashNodes[i] < sortedHashNodes[j]
 	})
-
 	c.sortedHashNodes = sortedHashNodes
 	c.hashCircle = hashCircle
-}
-
-func (c *Consistent) firstKey() getty.Session {
-	c.RLock()
-	defer c.RUnlock()
-
-	if len(c.sortedHashNodes) > 0 {
-		return c.hashCircle[c.sortedHashNodes[0]]
-	}
-
-	return nil
+	c.members = live
 }
 
 func newConsistenceInstance(sessions *sync.Map) *Consistent {
 	once.Do(func() {
 		consistentInstance = &Consistent{
 			hashCircle: make(map[int64]getty.Session),
+			members:    make(map[getty.Session]struct{}),
 		}
-		// construct hash circle
-		sessions.Range(func(key, value interface{}) bool {
-			session := key.(getty.Session)
-			for i := 0; i < defaultVirtualNodeNumber; i++ {
-				if !session.IsClosed() {
-					position := consistentInstance.hash(fmt.Sprintf("%s%d", session.RemoteAddr(), i))
-					consistentInstance.put(position, session)
-					consistentInstance.sortedHashNodes = append(consistentInstance.sortedHashNodes, position)
-				} else {
-					sessions.Delete(key)
-				}
-			}
-			return true
-		})
-
-		// virtual node sort
-		sort.Slice(consistentInstance.sortedHashNodes, func(i, j int) bool {
-			return consistentInstance.sortedHashNodes[i] < consistentInstance.sortedHashNodes[j]
-		})
 	})
 
 	return consistentInstance
 }
 
 func ConsistentHashLoadBalance(sessions *sync.Map, xid string) getty.Session {
-	if consistentInstance == nil {
-		newConsistenceInstance(sessions)
-	}
-
 	// pick a node
-	return consistentInstance.pick(sessions, xid)
+	return newConsistenceInstance(sessions).pick(sessions, xid)
 }
